@@ -14,7 +14,9 @@ RULE = ("2-3 float tensors + 1 bool tensor + 1 lower-rank float tensor drawn as 
         "equal_nan=True, rtol 1e-12 (1e-6 for float32); reshape/view may raise RuntimeError except for the mandatory class (merge adjacent, "
         "insert/remove size-1, flatten, -1); representation invariant checked on every PatternedTensor constructed inside "
         "library calls. non-trivial = some operand has a non-dense pattern and the dense result is not constant; distinct by case hash")
-ASSUMPTIONS = ["operands of one program share index types per dimension (the module's documented precondition)",
+ASSUMPTIONS = ["the sign of a zero is not part of the denotation (torch.equal/allclose semantics): a register carries the library's own dense value once verified equal",
+               "integer tensors (results of to(int64)) take part in every operation except true division",
+               "operands of one program share index types per dimension (the module's documented precondition)",
                "in-place operations are applied to clones that do not alias a stride-0 view (torch itself rejects in-place writes to expanded tensors)",
                "log_softmax inputs are finite or -inf; positions where torch's own result is NaN are exempt",
                "stack operands are first brought to a common default with default_to (stack asserts equal defaults)",
@@ -24,6 +26,7 @@ ESSENTIAL_LABELS = ['structured', 'shared-axis', 'sum-axis', 'product-axis', 'bc
 FLOAT_BIN = ['add', 'sub', 'mul', 'div', 'logaddexp', 'maximum', 'lt', 'le', 'gt', 'ge', 'eq']
 SCALAR_BIN = ['add_s', 'sub_s', 'mul_s', 'div_s', 'lt_s', 'le_s', 'gt_s', 'ge_s', 'eq_s', 'imul_s', 'itruediv_s']
 INPLACE_T = ['imul_t', 'itruediv_t']
+DEFAULTS = gp.DEFAULTS_FLOAT + (2.5, -0.5, math.nan)      # fractional (narrowing conversions) and NaN defaults
 UNARY = ['abs', 'exp', 'expm1', 'log', 'clamp_min', 'clamp_max', 'neg_', 'log_', 'log1p_', 'relu_', 'abs_', 'nan_to_num_']
 BOOL_OPS = ['logical_and', 'logical_or', 'logical_not', 'any']
 STRUCT = ['where', 'where_derived', 'log_softmax', 'getitem', 'iter', 'tolist', 'transpose', 't', 'T', 'permute', 'flatten', 'unsqueeze',
@@ -46,14 +49,34 @@ def cases(draw, tier):
         tys = [tys[0]] * nd      # all dimensions of one type: square tensors, diagonals, well-typed transposes
     nfloat = draw(st.integers(2, 3))
     vals = gp.VALUES_FLOAT + ((-math.inf, math.inf) if draw(st.booleans()) else ())
-    floats = [draw(gp.tensor_specs(tys, values=vals, defaults=gp.DEFAULTS_FLOAT if draw(st.integers(0, 3)) else (1.0, 0.0, -math.inf)))
+    floats = [draw(gp.tensor_specs(tys, values=vals, defaults=DEFAULTS if draw(st.integers(0, 3)) else (1.0, 0.0, -math.inf)))
               for _ in range(nfloat)]        # a quarter of the tensors have the identity of mul/div, add/sub or max as default
     low = draw(gp.tensor_specs(tys[draw(st.integers(1, nd)):] if nd > 1 else tys, values=vals))
     boolean = draw(gp.tensor_specs(tys, dtype='bool'))
     proj = draw(gp.tensor_specs(tys, values=(0.0,), defaults=(0.0,), p_bcast=0.0))
     nsteps = draw(st.integers(1, 4))
     steps = []
-    if draw(st.integers(0, 5)) == 0:
+    scenario = draw(st.integers(0, 11))
+    if scenario in (2, 4):
+        # NaN-default scenario: one sparse operand has default NaN, the other any default, in either order
+        # (torch propagates NaN from either operand; Python's max/min/comparisons do not)
+        op0 = draw(st.sampled_from(['maximum', 'maximum', 'maximum', 'maximum', 'add', 'sub', 'mul', 'div', 'lt', 'ge', 'eq']))
+        floats[0] = draw(gp.tensor_specs(tys, values=vals, defaults=(math.nan,), p_dense=0.1, p_reuse=0.6, p_bcast=0.0))
+        dfl1 = (7.0, 0.0, math.inf, -1.0, -math.inf, math.nan)
+        if draw(st.booleans()):
+            floats[1] = draw(gp.tensor_specs(tys, values=vals, defaults=dfl1, p_dense=0.3))
+        else:   # same pattern, other values and default: every element outside the pattern is backed by the defaults only
+            floats[1] = dict(floats[0], phys=[draw(st.sampled_from(vals)) for _ in floats[0]['phys']], default=draw(st.sampled_from(dfl1)))
+        swap = draw(st.booleans())
+        steps.append({'op': op0, 'a': 1 if swap else 0, 'b': 0 if swap else 1, 'c': 0, 'n1': 0, 'n2': 0, 'n3': 1, 'x': 1.0})
+    elif scenario == 3:
+        # narrowing-conversion scenario: a default that the target dtype cannot represent, then an operation that
+        # computes on the default (the conversion alone is checked too)
+        floats[0] = draw(gp.tensor_specs(tys, values=gp.VALUES_FLOAT, defaults=(2.5, -0.5, 7.0, 1.5), p_dense=0.1, p_reuse=0.6, p_bcast=0.0))
+        steps.append({'op': 'to', 'a': 0, 'b': 0, 'c': 0, 'n1': 3, 'n2': 0, 'n3': 0, 'x': 0.0})
+        steps.append({'op': draw(st.sampled_from(['mul_s', 'add_s', 'sub_s', 'eq_s', 'lt_s', 'ge_s'])), 'a': -1, 'b': 0, 'c': 0,
+                      'n1': 0, 'n2': 0, 'n3': 0, 'x': draw(st.sampled_from([2.0, 1.0, 0.0, -1.0, 3.0]))})
+    elif scenario <= 1:
         # identity-default scenario: the sparse operand's default is the identity of the operation, which selects the
         # "densify only the other operand" branches of add/sub/mul/div/maximum/logaddexp
         op0 = draw(st.sampled_from(['div', 'mul', 'sub', 'add', 'maximum', 'logaddexp']))
@@ -194,7 +217,9 @@ def check(case, ctx):
             except Exception as e:
                 ctx.violation('exc:to_dense', f'after {op}: {type(e).__name__}: {e}', op=op); continue
             if ctx.require(same(ld, ref, exact), 'wrong-result', f'{op}: got {ld.tolist()} expected {ref.tolist()} (step {step})', op=op):
-                pool.append([lib, ref if exact else ld, True])
+                # the register carries the library's own dense value (just verified equal to the reference): equality is
+                # torch.equal's, which identifies -0.0 and 0.0, and a later division must see the zero the library holds
+                pool.append([lib, ld, True])
                 if structured and ref.numel() > 1 and not bool((ref == ref.reshape(-1)[0]).all() or ref.isnan().all() if ref.dtype != torch.bool else (ref == ref.reshape(-1)[0]).all()):
                     nontrivial = True
     ctx.nontrivial = nontrivial
@@ -225,6 +250,8 @@ def run_step(ctx, step, fl, bo, case, pool):
 
     if op in FLOAT_BIN + INPLACE_T + ['where', 'stack', 'copy_'] and len({A[1].dtype, B[1].dtype} | ({C[1].dtype} if op == 'stack' else set())) != 1:
         raise Skip('mixed dtypes (type promotion is outside the statement)')
+    if op in ('div', 'div_s', 'itruediv_s', 'itruediv_t') and A[1].dtype == torch.int64:
+        raise Skip('true division of an integer tensor changes the dtype (type promotion is outside the statement)')
     if op in FLOAT_BIN:
         tf = {'add': torch.add, 'sub': torch.sub, 'mul': torch.mul, 'div': torch.div, 'logaddexp': torch.logaddexp,
               'maximum': torch.maximum, 'lt': torch.lt, 'le': torch.le, 'gt': torch.gt, 'ge': torch.ge, 'eq': torch.eq}[op]
@@ -258,14 +285,14 @@ def run_step(ctx, step, fl, bo, case, pool):
     if op in INPLACE_T:
         t = lib('clone', A[0].clone); d = A[1].clone()
         if op == 'imul_t':
-            ref = ref_or_skip(lambda: d * B[1])
+            ref = ref_or_skip(lambda: d.clone().mul_(B[1]))     # the in-place torch operation: it rejects dtype/shape changes
             if tuple(ref.shape) != tuple(d.shape): raise Skip('in-place result shape would change')
             def f():
                 nonlocal t
                 t *= B[0]
                 return t
         else:
-            ref = ref_or_skip(lambda: d / B[1])
+            ref = ref_or_skip(lambda: d.clone().div_(B[1]))
             if tuple(ref.shape) != tuple(d.shape): raise Skip('in-place result shape would change')
             def f():
                 nonlocal t
@@ -279,16 +306,18 @@ def run_step(ctx, step, fl, bo, case, pool):
         if op == 'clamp_max': return lib(op, A[0].clamp_max, x), ref_or_skip(lambda: A[1].clamp_max(x)), True
         if op.endswith('_'):
             t = lib('clone', A[0].clone); d = A[1].clone()
+            # the reference is computed first: what torch itself rejects (e.g. log_ of an integer tensor) is outside the statement
             if op == 'nan_to_num_':
                 kw = [dict(nan=0.0), dict(nan=-math.inf, neginf=-math.inf, posinf=math.inf), dict(nan=0.0, posinf=math.inf),
                       dict(nan=1.5, posinf=9.0, neginf=-9.0)][n1 % 4]
-                r = lib(op, t.nan_to_num_, **kw); ref = d.nan_to_num_(**kw)
+                ref = ref_or_skip(lambda: d.nan_to_num_(**kw)); r = lib(op, t.nan_to_num_, **kw)
             else:
-                r = lib(op, getattr(t, op)); ref = getattr(d, op)()
+                ref = ref_or_skip(lambda: getattr(d, op)()); r = lib(op, getattr(t, op))
             ctx.require(same(lib('to_dense', A[0].to_dense), A[1], True), 'clone-aliases-source', f'{op} on a clone changed the source', op=op)
             ctx.require(r is t, 'inplace-returns-other', f'{op} did not return self', op=op)
             return r, ref, op in ('neg_', 'relu_', 'abs_', 'nan_to_num_')
-        return lib(op, getattr(A[0], op)), getattr(A[1], op)(), op == 'abs'
+        ref = ref_or_skip(lambda: getattr(A[1], op)())
+        return lib(op, getattr(A[0], op)), ref, op == 'abs'
     if op in BOOL_OPS:
         P = bo[step['a'] % len(bo)]; Q = bo[step['b'] % len(bo)]
         if op == 'logical_not': return lib(op, P[0].logical_not), P[1].logical_not(), True
@@ -328,7 +357,7 @@ def run_step(ctx, step, fl, bo, case, pool):
         if bool((A[1] == math.inf).any()) or bool(A[1].isnan().any()): raise Skip('input has +inf/nan')
         dim = n1 % A[1].ndim
         if n2 % 2: dim -= A[1].ndim
-        ref = A[1].log_softmax(dim)
+        ref = ref_or_skip(lambda: A[1].log_softmax(dim))
         r = lib(op, A[0].log_softmax, dim)
         ld = lib('to_dense', r.to_dense)
         ok = ~ref.isnan()
